@@ -304,7 +304,13 @@ class ExprGen:
             d = self.const()
             while d[1] == 0:
                 d = self.const()
-            return ("div", [self.const_tree(depth - 1), d])
+            ds = [d]
+            if r.random() < 0.3:        # a chain a / b / c with two different divisors
+                d2 = self.const()
+                while d2[1] == 0:
+                    d2 = self.const()
+                ds.append(d2)
+            return ("div", [self.const_tree(depth - 1)] + ds)
         if c < 0.95:
             return ("neg", self.const_tree(depth - 1))
         return ("pos", self.const_tree(depth - 1))
@@ -329,7 +335,13 @@ class ExprGen:
             d = self.const()
             while d[1] == 0:
                 d = self.const()
-            return ("div", [self.arith(depth - 1), d])
+            ds = [d]
+            if r.random() < 0.3:
+                d2 = self.const()
+                while d2[1] == 0:
+                    d2 = self.const()
+                ds.append(d2)
+            return ("div", [self.arith(depth - 1)] + ds)
         if c < 0.96:
             return ("neg", self.arith(depth - 1))
         return ("pos", self.arith(depth - 1))
